@@ -1,9 +1,10 @@
 pub mod common;
 pub mod c01;
+pub mod c03;
 pub mod c04;
 
 use crate::engine::Prop;
 
 pub fn registry() -> Vec<Prop> {
-    vec![c01::prop(), c04::prop()]
+    vec![c01::prop(), c03::prop(), c04::prop()]
 }
